@@ -194,6 +194,34 @@ func c05Prop(st *CaseStats, fam int) func(t *rapid.T) {
 				live = append(live, p)
 			}
 		}
+		if rapid.IntRange(0, 2).Draw(t, "reuseIdiomFirst") == 0 {
+			// the usual reuse idiom over misses and hits, stopping early, before the iterator under test is made
+			err := safely("reuse idiom", func() error {
+				var rpl segment.PostingsList
+				var rit segment.PostingsIterator
+				for _, f := range c.Exp.Fields {
+					d, err := c.Seg.Dictionary(f)
+					if err != nil {
+						return err
+					}
+					for _, tm := range append([]string{"absent-first"}, sortedKeys(c.Exp.Post[f])...) {
+						if rpl, err = d.PostingsList([]byte(tm), nil, rpl); err != nil {
+							return err
+						}
+						if rit, err = rpl.Iterator(true, true, true, rit); err != nil {
+							return err
+						}
+						if _, err = rit.Next(); err != nil {
+							return err
+						}
+					}
+				}
+				return nil
+			})
+			if err != nil {
+				t.Fatalf("%s: %v", desc, err)
+			}
+		}
 		var pl segment.PostingsList
 		var it segment.PostingsIterator
 		err = safely("PostingsList/Iterator", func() error {
@@ -369,6 +397,36 @@ func c05Prop(st *CaseStats, fam int) func(t *rapid.T) {
 				}
 			}
 			last = int64(g.Doc)
+		}
+		// the iterator of an absent term is empty whatever happened before: Count 0, nil, and nil again
+		err = safely("absent term", func() error {
+			d, err := c.Seg.Dictionary(tg.field)
+			if err != nil {
+				return err
+			}
+			apl, err := d.PostingsList([]byte(absentProbeTerm), nil, nil)
+			if err != nil {
+				return err
+			}
+			ait, err := apl.Iterator(incF, incN, incL, nil)
+			if err != nil {
+				return err
+			}
+			if apl.Count() != 0 || ait.Count() != 0 {
+				return fmt.Errorf("absent term: Count list %d iterator %d", apl.Count(), ait.Count())
+			}
+			for k := 0; k < 2; k++ {
+				if p, err := ait.Next(); p != nil || err != nil {
+					return fmt.Errorf("absent term: Next returned %v, %v", p, err)
+				}
+			}
+			if p, err := ait.Advance(3); p != nil || err != nil {
+				return fmt.Errorf("absent term: Advance returned %v, %v", p, err)
+			}
+			return nil
+		})
+		if err != nil {
+			t.Fatalf("%s\n  history%s: %v", desc, hist, err)
 		}
 		if except != nil && !except.Equals(exceptCopy) {
 			t.Fatalf("%s\n  history%s: the exclusion bitmap was modified", desc, hist)
